@@ -48,6 +48,7 @@ THEOREMS = [
     "Optyx.Props.ClosurePathTie.unaryGradient_path",
     "Optyx.Props.ClosurePathTie.compileGradient_path",
     "Optyx.Props.ClosurePathTie.compileHessian_path",
+    "Optyx.Props.ClosurePathTie.compileJacobian_path",
     "Optyx.Props.PinsC19.anchors",
 ]
 ASSUMPTIONS = [
